@@ -2,6 +2,7 @@
 //! One binary, one subcommand per property engine. Exit codes: 0 held, 1 violation, 2 harness error.
 
 mod api;
+mod c10;
 mod c11;
 mod c12;
 mod c15;
@@ -27,6 +28,7 @@ fn real_main() -> i32 {
     install_quiet_panic_hook();
     let env = Env::from_env_and_args(&args[1..]);
     match args[0].as_str() {
+        "c10" => c10::main(&env),
         "c11" => c11::main(&env),
         "c12" => c12::main(&env),
         "c15" => c15::main(&env),
@@ -42,6 +44,7 @@ fn real_main() -> i32 {
             };
             match (doc["property"].as_str(), doc["engine"].as_str()) {
                 (Some("C15"), _) => c15::replay(&doc),
+                (Some("C10"), _) => c10::replay(&doc),
                 (Some("C11"), _) => c11::replay(&doc),
                 (Some("C12"), Some("disk")) => c12::replay(&doc),
                 _ => {
